@@ -515,6 +515,35 @@ def _constant_like(v) -> bool:
     return False
 
 
+def _immutable_value(v) -> bool:
+    if isinstance(v, (ast.Constant, ast.JoinedStr)):
+        return True
+    if isinstance(v, ast.Tuple):
+        return all(_immutable_value(e) for e in v.elts)
+    if isinstance(v, ast.BinOp):
+        return _immutable_value(v.left) and _immutable_value(v.right)
+    if isinstance(v, ast.Call) and isinstance(v.func, ast.Name) and v.func.id in ("frozenset", "tuple"):
+        return True
+    return False
+
+
+def _only_read_as_collection(tree, name: str) -> bool:
+    """every use of the (mutable) module-level container is a membership test or an iteration"""
+    parents = {}
+    for p in ast.walk(tree):
+        for c in ast.iter_child_nodes(p):
+            parents[c] = p
+    for n in ast.walk(tree):
+        if isinstance(n, ast.Name) and n.id == name and isinstance(n.ctx, ast.Load):
+            p = parents.get(n)
+            if isinstance(p, ast.Compare) and len(p.ops) == 1 and isinstance(p.ops[0], (ast.In, ast.NotIn)) and p.comparators[0] is n:
+                continue
+            if isinstance(p, (ast.For, ast.comprehension)) and p.iter is n:
+                continue
+            return False
+    return True
+
+
 def _is_re_compile(v) -> bool:
     return isinstance(v, ast.Call) and ast.unparse(v.func) == "re.compile" and v.args and _constant_like(v.args[0]) and all(_constant_like(a) for a in v.args[1:]) and not v.keywords
 
@@ -559,7 +588,7 @@ def inline_module_constants(tree: ast.Module, ref_module_names: set[str]) -> lis
             name = st.targets[0].id
             if name in ref_module_names or stores.get(name, 0) != 1:
                 continue
-            if _constant_like(st.value) or _is_re_compile(st.value):
+            if _is_re_compile(st.value) or (_constant_like(st.value) and (_immutable_value(st.value) or _only_read_as_collection(tree, name))):
                 cands[name] = st
     if not cands:
         return done
